@@ -33,12 +33,14 @@ pub fn run(ctx: &Ctx) -> Outcome {
     run_cases(ctx, &mut out, SubSpec { name: "fill_rect_routes", cases: ctx.n(300_000, 4_000_000), exhaustive: false, max_secs: secs }, |i, want, st| {
         let mut rng = ctx.rng("fill_rect_routes", i);
         let wide = rng.chance(0.06);
-        let w = if wide { rng.int(33, 90) } else { rng.int(1, 16) } as i32;
-        let h = if wide { rng.int(1, 4) } else { rng.int(1, 16) } as i32;
+        let very_wide = rng.chance(0.002);
+        let w = if very_wide { rng.int(1025, 2100) } else if wide { rng.int(33, 90) } else { rng.int(1, 16) } as i32;
+        let h = if very_wide { 1 } else if wide { rng.int(1, 4) } else { rng.int(1, 16) } as i32;
         let n = (w * h) as usize;
         let init = canary(&mut rng, n);
         let (x, y) = (rng.int(-4, w as i64 + 2) as f32, rng.int(-4, h as i64 + 2) as f32);
         let (rw, rh) = match rng.below(8) {
+            _ if very_wide => (rng.int(1000, w as i64 + 4) as f32, rng.int(1, 2) as f32),
             0 => (0., rng.int(-2, 4) as f32),
             1 => (rng.int(-6, -1) as f32, rng.int(-6, 6) as f32),
             2 => (rng.int(1, 6) as f32, rng.int(-6, -1) as f32),
